@@ -793,13 +793,16 @@ class _NPX(_types.ModuleType):
             return self._elementwise2(a, b, lambda p, q: X(val(p)) if X(val(p)) <= q else X(val(q)))
         return _np.minimum(a, b)
 
-    def clip(self, a, lo, hi, **k):
+    def clip(self, a, a_min=None, a_max=None, out=None, **k):
+        # numpy's signature: clip(a, a_min, a_max, out=None, *, min=None, max=None)
+        lo = k.pop("min", a_min) if a_min is None else a_min
+        hi = k.pop("max", a_max) if a_max is None else a_max
         if _symbolic(a, lo, hi):
             def one(c):
                 c = X(val(c))
-                if c < lo:
+                if lo is not None and c < lo:
                     return X(val(lo))
-                if c > hi:
+                if hi is not None and c > hi:
                     return X(val(hi))
                 return c
             return _map(a, one)
